@@ -75,7 +75,8 @@ class Run:
             rc, so, se, _ = sh(["cargo", "build", "--offline", "--release"], cwd=d, env={"RUSTUP_TOOLCHAIN": VERUS_TOOLCHAIN})
             if rc != 0:
                 raise Undecided("cannot build extern crates: " + se[-1500:])
-        return ["--extern", "ordered_float=" + find("ordered_float"), "--extern", "rand=" + find("rand"), "-L", "dependency=" + deps]
+        return ["--extern", "ordered_float=" + find("ordered_float"), "--extern", "num_traits=" + find("num_traits"),
+                "--extern", "rand=" + find("rand"), "-L", "dependency=" + deps]
 
     def expand(self, package="push"):
         """macro expansion of the real crate (cargo +nightly rustc -Zunpretty=expanded): the source of the
